@@ -9,13 +9,13 @@ def plan(tier, seed):
     conds = []
     for cred in range(H.NCREDS):
         conds.append(Cond("select-and-payload-cred%d" % cred, F, "hist",
-                          env={"C10_SHAPE": "connect*", "C10_FREEZE": "refuse,greet,offer", "C10_NSASL": 9, "C10_CRED": cred},
+                          env={"C10_SHAPE": "connect*", "C10_FREEZE": "refuse,greet,offer,okform", "C10_NSASL": 9, "C10_CRED": cred},
                           timeout=280 if q else 1500))
     conds.append(Cond("select-after-tls", F, "hist",
-                      env={"C10_SHAPE": "connect-tls*", "C10_FREEZE": "refuse,greet,offer,starttls,wrap,greet2", "C10_NSASL": 9,
+                      env={"C10_SHAPE": "connect-tls*", "C10_FREEZE": "refuse,greet,offer,okform,starttls,wrap,greet2", "C10_NSASL": 9,
                            "C10_SASL": "0,2,5,8" if q else "0,1,2,3,4,5,6,7,8", "C10_MECHS": "0,1,3,4" if q else "0,1,2,3,4,5,6",
                            "C10_CRED": 1}, timeout=280 if q else 3000))
-    conds.append(Cond("c16-vacuity", F, "hist", env={"C10_SHAPE": "connect*", "C10_FREEZE": "refuse,greet,offer", "C10_CRED": 0},
+    conds.append(Cond("c16-vacuity", F, "hist", env={"C10_SHAPE": "connect*", "C10_FREEZE": "refuse,greet,offer,okform", "C10_CRED": 0},
                       timeout=90, vacuity=True))
     meta = dict(functions=["sievelib.managesieve.Client.__authenticate", "get_sasl_mechanisms", "_plain_authentication",
                            "_login_authentication", "_oauthbearer_authentication", "_digest_md5_authentication",
